@@ -6,6 +6,7 @@ import (
 	"encoding/binary"
 	"errors"
 	"fmt"
+	"runtime/debug"
 	"sort"
 	"strings"
 	"sync"
@@ -94,6 +95,33 @@ func flipBit(b []byte, i int) []byte {
 	return c
 }
 
+// tryWhere runs f under recover; on a panic it returns the panic value and the
+// innermost function of the repository under test on the stack.
+func tryWhere(f func()) (p any, where string) {
+	defer func() {
+		if r := recover(); r != nil {
+			p = r
+			where = "unknown"
+			const mod = "github.com/aperturerobotics/bifrost/"
+			for _, ln := range strings.Split(string(debug.Stack()), "\n") {
+				if strings.HasPrefix(ln, mod) {
+					fn := strings.TrimPrefix(ln, mod)
+					if i := strings.LastIndex(fn, "("); i > 0 {
+						fn = fn[:i]
+					}
+					if i := strings.LastIndex(fn, "/"); i >= 0 {
+						fn = fn[i+1:]
+					}
+					where = strings.NewReplacer("(", "", ")", "", "*", "", " ", "").Replace(fn)
+					break
+				}
+			}
+		}
+	}()
+	f()
+	return nil, ""
+}
+
 func scalar(n byte) []byte { b := make([]byte, 32); b[0] = n; return b }
 
 func TestC18(t *testing.T) {
@@ -155,9 +183,9 @@ func TestC18(t *testing.T) {
 		var got []byte
 		var res *envelope.EnvelopeUnlockResult
 		var err error
-		if p := enum.Try(func() { got, res, err = envelope.UnlockEnvelope(ctx, env, privs) }); p != nil {
+		if p, where := tryWhere(func() { got, res, err = envelope.UnlockEnvelope(ctx, env, privs) }); p != nil {
 			acc.Case(group, key, !trivial, "PANIC")
-			violate("panic/"+panicClass(p), fmt.Sprintf("UnlockEnvelope panicked on %s: %v", key, p), key)
+			violate("panic/"+where+"/"+panicClass(p), fmt.Sprintf("UnlockEnvelope panicked (in %s) on %s: %s: %v", where, group, key, p), group+": "+key)
 			return "panic"
 		}
 		var out string
@@ -179,12 +207,12 @@ func TestC18(t *testing.T) {
 		}
 		if len(got) != 0 && (fx == nil || !bytes.Equal(got, fx.payload)) {
 			acc.Case(group, key, !trivial, "DIFFERENT PAYLOAD")
-			violate("different-payload/"+group, fmt.Sprintf("UnlockEnvelope returned %d payload bytes that are not the sealed payload for %s (err=%v success=%v)", len(got), key, err, res.GetSuccess()), key)
+			violate("different-payload/"+group, fmt.Sprintf("UnlockEnvelope returned %d payload bytes that are not the sealed payload for %s: %s (err=%v success=%v)", len(got), group, key, err, res.GetSuccess()), group+": "+key)
 			return "different"
 		}
 		if out == "opened" && len(got) == 0 {
 			acc.Case(group, key, !trivial, "SUCCESS WITHOUT PAYLOAD")
-			violate("success-without-payload/"+group, fmt.Sprintf("UnlockEnvelope reported success but returned no payload for %s", key), key)
+			violate("success-without-payload/"+group, fmt.Sprintf("UnlockEnvelope reported success but returned no payload for %s: %s", group, key), group+": "+key)
 			return "different"
 		}
 		if out == "opened" {
